@@ -47,6 +47,7 @@ func sliceScalar() *slice {
 		Lit(`"a"`, TStr, "a"), Var("S", TStr), Var("T", TStr),
 		Var("A", TIntArr), Var("SA", TStrArr), Var("M", TMap),
 		Un("-", TInt, TInt), Un("-", TFloat, TFloat), Un("+", TInt, TInt),
+		Call("GetInt", TInt), Call("Id", TInt, TInt),
 	}
 	for _, o := range []string{"+", "-", "*", "/"} {
 		o := o
@@ -97,6 +98,8 @@ func sliceAccess() *slice {
 		MapLit([]string{"a"}, TInt), MapLit([]string{"a", "b"}, TInt, TStr),
 		Len(TIntArr), Len(TAnyArr), Len(TStr), Len(TAnyMap),
 		Bin("==", TObj, TNil, TBool), Bin("==", TAny, TNil, TBool), Bin("+", TInt, TInt, TInt),
+		Var("X", TFunc), {Op: "cond", Out: TInt, In: []Slot{{T: TFunc, Operand: true, Closure: -1}, // TFunc: only the dynamic member X can be this condition
+			{T: TInt, Operand: true, Closure: -1}, {T: TInt, Operand: true, Closure: -1}}, Fmt: "%s ? %s : %s"},
 	}
 	return &slice{name: "access", g: NewGrammar(rules), tops: []NT{nt(TInt), nt(TStr), nt(TObj), nt(TIntArr), nt(TAnyArr), nt(TAnyMap), nt(TBool), nt(TAny)}, modes: lib.AllModes,
 		maxN: map[string]int{"quick": 5, "thorough": 7}}
